@@ -102,11 +102,11 @@ var applyUnit = ev.Unit[ApplyCase]{
 		o := lib.Defaults()
 		want := ref.Apply(doc, ops, o.Ref())
 		got := lib.Apply(c.Doc, c.Patch, o)
-		if got.Panic != nil {
-			return ev.Verdict{Err: got.Panic}
-		}
 		if want.OutOfDomain() {
 			return ev.Excluded("out of domain: "+want.Res.Why, "ood")
+		}
+		if got.Panic != nil {
+			return ev.Verdict{Err: got.Panic}
 		}
 		if !want.OK() {
 			// C01/C08 matter; here only the agreement on failure is kept
